@@ -504,6 +504,20 @@ def m_to_lowercase(ex, callee, args):
     return StrV(r)
 
 
+@model(r'^(core::|alloc::)?str::<impl str>::to_ascii_(lower|upper)case$')
+def m_to_ascii_case(ex, callee, args):
+    # exact for every UTF-8 string: only the bytes A-Z / a-z change, everything else (all bytes >= 0x80) stays
+    s = as_str(args[0])
+    upper = callee.endswith('to_ascii_uppercase')
+    if isinstance(s, (bytes, bytearray)):
+        return StrV(bytes((c - 32 if 0x61 <= c <= 0x7a else c) if upper else (c + 32 if 0x41 <= c <= 0x5a else c) for c in s))
+    if not upper:
+        return StrV(S.to_lower_ascii(s))
+    bs, ln, cap = S.parts(s)
+    up = [(b - 32 if 0x61 <= b <= 0x7a else b) if isinstance(b, int) else z3.If(z3.And(z3.UGE(b, 0x61), z3.ULE(b, 0x7a)), b - 32, b) for b in bs]
+    return StrV(SStr(up, ln, 'upper'))
+
+
 # ----------------------------------------------------------------------
 # regex construction: validity of an arbitrary pattern is an uninterpreted
 # property of the pattern text
